@@ -164,6 +164,9 @@ def check(tier: str) -> Result:
     # ---- R10: an entity that is already used (packed, visited, placed) is never offered by the mask (rules/used_rules.py)
     from . import used_rules
     n_used = used_rules.add_obligations(res, tree, "C04.R10")
+    # ---- R11: inside mask functions the displacement is added as in step (rules/move_rules.py)
+    from . import move_rules
+    n_mv = move_rules.add_obligations(res, tree, "C04.R11", scope="mask")
     res.analysed = {"environments_with_mask": mask_envs, "step_consults_state_mask": reads_mask, "mask_vs_validity": r3b,
                     "axis_typed_sites": n_axis, "table_pairings": n_tab, "paired_reset_step_mask_call_arguments": n_pc}
     res.assumptions = ["records are not aliased across names inside step", "exceptions: none"]
